@@ -54,11 +54,20 @@ def run(tier):
         neg_jobs = [pool.submit(lib.mc, "MC_CifEdit", cfg, sc, expect_violation="CliEqualsLib", workers=2)
                     for cfg, _ in negs]
 
+        import time
+        ph, t0 = {}, time.time()
+
+        def mark(name):
+            nonlocal t0
+            ph[name] = round(time.time() - t0, 1)
+            t0 = time.time()
         gen = ce.gen_cases(t["gen"], sc)
+        mark("gen")
         rnd = ce.random_cases(t["rnd"], lib.seed())
         cor = ce.corpus_cases(t["corpus_bytes"], t["corpus_ops"])
         small = _record_all(gen + rnd)
         big = _record_all(cor)
+        mark("record")
         dom_job = pool.submit(ce.domain_check, gen, t["gen"], sc)
         # corpus cases are heavy: spread them evenly over the chunks
         allc = list(small)
@@ -68,7 +77,9 @@ def run(tier):
         res = lib.trace_validate("Trace_CifEdit", "Trace_CifEdit.cfg", allc, sc, xmx="4g",
                                  chunks=8 if tier == "quick" else lib.NCPU)
         rep.add_trace(res, {c["id"]: c for c in allc}, "C20")
+        mark("trace_validate")
         dom_job.result()
+        mark("domain_check_wait")
 
         for j, cfg in zip(mc_jobs, t["mc"]):
             rep.add_mc(j.result(), "transformer algorithm (read, check, per-row copy / first-seen replace, write) "
@@ -78,13 +89,17 @@ def run(tier):
         for j, (cfg, what) in zip(neg_jobs, negs):
             rep.add_mc(j.result(), "negative control: " + what + " must violate CliEqualsLib", negative_control=True)
         pool.shutdown()
+        mark("mc_wait")
+        rep.cov["phase_wall_s"] = ph
 
         cov = rep.cov
         inputs = gen + rnd
         edits = [c for c in inputs if ce.is_edit(c)]
         cov["exhaustive"] = True
+        with open(os.path.join(lib.SPECS, t["gen"])) as fh:
+            bounds = ", ".join(line.split("CONSTANT", 1)[1].strip() for line in fh if "CONSTANT" in line)
         cov["rule"] = (f"every case of the bounded domain of Gen_CifEdit/{t['gen']} ({len(gen)} document x operation "
-                       "cases: kv + 1-2 loop categories, <= 3 items, rows and palette per cfg, source column over "
+                       f"cases: kv + 1-2 loop categories, bounds {bounds}, source column over "
                        "every palette sequence, copy/replace over every present/absent/new item and an absent "
                        f"category; exhaustiveness re-checked by TLC) + {len(rnd)} seeded random documents (<= 4 "
                        f"categories, 5 items, 6 rows, {len(ce.VALUE_POOL)} value shapes, punctuation alphabets) + "
